@@ -1274,8 +1274,8 @@ def expandTableFile(Eups, ofd, ifd, productList, versionRegexp=None, force=False
     # Here's the function to do the substitutions
     #
     def subSetup(match):
-        cmd = match.group(1)
-        args = match.group(2).split()
+        cmd = "setupOptional" if match.group(1).lower() == "setupoptional" else "setupRequired"
+        args = [a for a in re.split(r"[,\s]+", match.group(2)) if a] # Table._read splits at commas too
 
         original = match.group(0)
 
@@ -1402,8 +1402,9 @@ def expandTableFile(Eups, ofd, ifd, productList, versionRegexp=None, force=False
             continue
         line = re.sub(r"\s*#.*$", "", line) # strip comments running to the end of the line
 
-        # Attempt substitutions
-        rex = r'(setupRequired|setupOptional)\("?([^"]*)"?\)'
+        # Attempt substitutions.  A setup command may be spelt in any way Table._read accepts: the name in any
+        # case, blanks between the name and the parenthesis
+        rex = r'(?i)(setupRequired|setupOptional)\s*\("?([^"]*)"?\)'
 
         line = re.sub(rex, subSetup, line)
 
@@ -1414,17 +1415,17 @@ def expandTableFile(Eups, ofd, ifd, productList, versionRegexp=None, force=False
                 setupBlocks.append(block)
                 lastSetupBlock = len(setupBlocks) - 1
 
-            args = mat.group(2)
+            args = [a for a in re.split(r"[,\s]+", mat.group(2)) if a] # as subSetup splits them
             if args:
-                cmd = args.split(" ")[0]
+                cmd = args[0]
                 if cmd == "eups":
                     finalBlock[1].append(line)
                     continue
 
                 products.append((cmd,
-                                 mat.group(1) == "setupOptional",
+                                 mat.group(1).lower() == "setupoptional",
                                  "--external" in line,
-                                 "-j" in args.split())) # -j: the product was setup without its dependencies
+                                 "-j" in args)) # -j: the product was setup without its dependencies
         else:
             if block[0]:
                 block = [False, []]
